@@ -174,7 +174,7 @@ def validate_traces(chk, traces, concrete, seed, label='join'):
         ok = v2[1][0] == 1
         chk.binding_demo = {'corrupted': 'last delivered row of pass 1 removed', 'verdict': list(v2[1]),
                             'rejected_as_expected': ok}
-        if not ok:
+        if not ok and not chk.violations:
             raise tlc.MachineryError('binding demo failed: corrupted join trace accepted')
 
 
